@@ -102,8 +102,8 @@ func gkGroupKind(gk int) (string, string) {
 }
 
 func (a aSet) spec() (corev1alpha1.ObjectSetSpec, metav1.ObjectMeta, corev1alpha1.ObjectSetStatus) {
-	md := metav1.ObjectMeta{Name: "n" + strconv.Itoa(a.Name), Namespace: nsName(a.NS), UID: types.UID("u" + strconv.Itoa(a.UID)),
-		ResourceVersion: strconv.Itoa(a.RV), Generation: a.Gen, CreationTimestamp: metav1.Unix(1600000000+int64(a.Name), 0)}
+	md := metav1.ObjectMeta{Name: setNameStr(a.Name), Namespace: nsName(a.NS), UID: types.UID("u" + strconv.Itoa(a.UID)),
+		ResourceVersion: strconv.Itoa(a.RV), Generation: a.Gen, CreationTimestamp: metav1.Unix(1600000000+int64(a.Name%1000), 0)}
 	if a.Fin {
 		md.Finalizers = append(md.Finalizers, constants.CachedFinalizer)
 	}
@@ -119,7 +119,7 @@ func (a aSet) spec() (corev1alpha1.ObjectSetSpec, metav1.ObjectMeta, corev1alpha
 	}
 	spec := corev1alpha1.ObjectSetSpec{LifecycleState: lifeState(a.Life)}
 	for _, ph := range a.Phases {
-		p := corev1alpha1.ObjectSetTemplatePhase{Name: "p" + strconv.Itoa(ph.Name)}
+		p := corev1alpha1.ObjectSetTemplatePhase{Name: phaseNameStr(ph.Name)}
 		if ph.Class {
 			p.Class = "default"
 		}
@@ -130,7 +130,7 @@ func (a aSet) spec() (corev1alpha1.ObjectSetSpec, metav1.ObjectMeta, corev1alpha
 	}
 	spec.AvailabilityProbes = scenarioProbes()
 	for _, n := range a.Prev {
-		spec.Previous = append(spec.Previous, corev1alpha1.PreviousRevisionReference{Name: "n" + strconv.Itoa(n)})
+		spec.Previous = append(spec.Previous, corev1alpha1.PreviousRevisionReference{Name: setNameStr(n)})
 	}
 	st := corev1alpha1.ObjectSetStatus{Revision: a.Revision}
 	for _, c := range a.Conds {
@@ -144,7 +144,7 @@ func (a aSet) spec() (corev1alpha1.ObjectSetSpec, metav1.ObjectMeta, corev1alpha
 		st.ControllerOf = append(st.ControllerOf, corev1alpha1.ControlledObjectReference{Group: g, Kind: kind, Namespace: nsName(k.NS), Name: "n" + strconv.Itoa(k.Name)})
 	}
 	for _, r := range a.Remotes {
-		st.RemotePhases = append(st.RemotePhases, corev1alpha1.RemotePhaseReference{Name: "n" + strconv.Itoa(r[0]), UID: types.UID("u" + strconv.Itoa(r[1]))})
+		st.RemotePhases = append(st.RemotePhases, corev1alpha1.RemotePhaseReference{Name: setNameStr(r[0]), UID: types.UID("u" + strconv.Itoa(r[1]))})
 	}
 	return spec, md, st
 }
@@ -217,7 +217,7 @@ func abstractSet(m map[string]any) (aSet, error) {
 		md, life, phases, prev = o.ObjectMeta, o.Spec.LifecycleState, o.Spec.Phases, o.Spec.Previous
 		a.Revision, conds, ctrlof, remotes = o.Status.Revision, o.Status.Conditions, o.Status.ControllerOf, o.Status.RemotePhases
 	}
-	a.NS, a.Name, a.UID = num("ns", md.Namespace), num("n", md.Name), num("u", string(md.UID))
+	a.NS, a.Name, a.UID = num("ns", md.Namespace), setNameNum(md.Name), num("u", string(md.UID))
 	a.RV, _ = strconv.Atoi(md.ResourceVersion)
 	a.Gen = md.Generation
 	a.Deleting = md.DeletionTimestamp != nil
@@ -232,14 +232,14 @@ func abstractSet(m map[string]any) (aSet, error) {
 	a.Pkg = pkgLabelNum(md.Labels[pkgLabel])
 	a.Life = lifeNum(life)
 	for _, ph := range phases {
-		ap := aPhase{Name: num("p", ph.Name), Class: ph.Class != "", Objects: []aPObj{}}
+		ap := aPhase{Name: phaseNameNum(ph.Name), Class: ph.Class != "", Objects: []aPObj{}}
 		for _, o := range ph.Objects {
 			ap.Objects = append(ap.Objects, abstractPObj(o))
 		}
 		a.Phases = append(a.Phases, ap)
 	}
 	for _, p := range prev {
-		a.Prev = append(a.Prev, num("n", p.Name))
+		a.Prev = append(a.Prev, setNameNum(p.Name))
 	}
 	for _, c := range conds {
 		st := int64(2)
@@ -259,7 +259,7 @@ func abstractSet(m map[string]any) (aSet, error) {
 		a.CtrlOf = append(a.CtrlOf, aKey{gkOf(av, r.Kind), num("ns", r.Namespace), num("n", r.Name)})
 	}
 	for _, r := range remotes {
-		a.Remotes = append(a.Remotes, [2]int{num("n", r.Name), num("u", string(r.UID))})
+		a.Remotes = append(a.Remotes, [2]int{setNameNum(r.Name), num("u", string(r.UID))})
 	}
 	return a, nil
 }
@@ -298,6 +298,7 @@ type aMetaEvent struct {
 	OK     bool   `json:"ok"`
 	Err    string `json:"err,omitempty"`
 	Set    *aSet  `json:"set,omitempty"` // the ObjectSet as sent (status requests) / as stored after (finalizer)
+	Phase  *aPEv  `json:"phase,omitempty"` // kind "phase": a request on an ObjectSetPhase object
 	FPh    *int   `json:"fph,omitempty"` // phase named in the ProbeFailure message of the status sent
 }
 
@@ -308,7 +309,9 @@ type objectsetScenario struct {
 	NextRV  int64  `json:"next_rv"`
 	NextUID int64  `json:"next_uid"`
 	Target  aOID   `json:"target"`
-	// Passes: further targets reconciled one after the other (optional; default just Target once)
+	// ObjectSetPhase objects and environment Namespace objects (number, terminating) of the world; optional
+	Phases []aOSP   `json:"phases,omitempty"`
+	NSs    [][2]int `json:"nss,omitempty"`
 	Faults map[string]string `json:"faults,omitempty"`
 }
 
@@ -318,6 +321,7 @@ type objectsetObs struct {
 	Events   []aMetaEvent `json:"events"`
 	Post     []aObj       `json:"post"`
 	Sets     []aSet       `json:"sets"`
+	Phases   []aOSP       `json:"phases"`
 	NextRV   int64        `json:"next_rv"`
 	NextUID  int64        `json:"next_uid"`
 	Requests []string     `json:"requests"`
@@ -364,7 +368,14 @@ func setEventsFromLog(s *Store, log []*Request, target storeKey) []aMetaEvent {
 			}
 			continue
 		}
-		evs := eventsFromLog([]*Request{r})
+		if isPhaseKey(r.Key) {
+			// requests of the remote phase reconciler (and of areRemotePhasesPaused) on ObjectSetPhase objects
+			if e := phaseEvent(r, true); e != nil {
+				out = append(out, aMetaEvent{Kind: "phase", Phase: e, OK: e.OK})
+			}
+			continue
+		}
+		evs := eventsFromLogX([]*Request{r})
 		for i := range evs {
 			out = append(out, aMetaEvent{Kind: "member", Member: &evs[i], OK: true})
 		}
@@ -375,7 +386,7 @@ func setEventsFromLog(s *Store, log []*Request, target storeKey) []aMetaEvent {
 	return out
 }
 
-var failedPhaseRe = regexp.MustCompile(`^Phase "p(\d+)" failed`)
+var failedPhaseRe = regexp.MustCompile(`^Phase "(p[0-9p-]+)" failed`)
 
 // failedPhaseOf: the phase the Available=False/ProbeFailure condition names in its message, if any.
 func failedPhaseOf(m map[string]any) *int {
@@ -387,7 +398,7 @@ func failedPhaseOf(m map[string]any) *int {
 		}
 		msg, _ := cm["message"].(string)
 		if mm := failedPhaseRe.FindStringSubmatch(msg); mm != nil {
-			n, _ := strconv.Atoi(mm[1])
+			n := phaseNameNum(mm[1])
 			return &n
 		}
 	}
@@ -399,12 +410,12 @@ func setKey(o aOID) storeKey {
 	if o.Kind == 2 {
 		kind = "ClusterObjectSet"
 	}
-	return storeKey{corev1alpha1.GroupVersion.Group, kind, nsName(o.NS), "n" + strconv.Itoa(o.Name)}
+	return storeKey{corev1alpha1.GroupVersion.Group, kind, nsName(o.NS), setNameStr(o.Name)}
 }
 
 func loadWorld(s *Store, scheme *runtime.Scheme, store []aObj, sets []aSet, rv, uid int64) error {
 	for _, o := range store {
-		s.RawPut(o.concrete(), false)
+		s.RawPut(denormRefs(o.concrete()), false)
 	}
 	for _, a := range sets {
 		m, err := a.concrete(scheme)
@@ -428,6 +439,15 @@ func init() {
 		if err := loadWorld(s, scheme, sc.Store, sc.Sets, sc.NextRV, sc.NextUID); err != nil {
 			return nil, err
 		}
+		for _, p := range sc.Phases {
+			m, err := p.concrete()
+			if err != nil {
+				return nil, err
+			}
+			s.RawPut(m, false)
+		}
+		putNamespaces(s, sc.NSs)
+		s.SetCounters(sc.NextRV, sc.NextUID)
 		if sc.Force {
 			os.Setenv(constants.ForceAdoptionEnvironmentVariable, "1")
 		} else {
@@ -467,8 +487,9 @@ func init() {
 		}
 		obs.Events = setEventsFromLog(s, s.Log, key)
 		obs.Requests = requestSummary(s.Log)
-		obs.Post = abstractStore(s)
+		obs.Post = abstractStoreX(s)
 		obs.Sets = abstractSets(s)
+		obs.Phases = abstractPhases(s)
 		obs.NextRV, obs.NextUID = s.Counters()
 		obs.Watches = cache.Watches
 		_ = fmt.Sprint
